@@ -40,6 +40,13 @@ func (s *AggregateSet) Merge(query *Query, set *AggregateSet) error {
 	//dlog.Common.Trace("Merge", set)
 	for _, sc := range query.Select {
 		storage := sc.FieldStorage
+		// A partial result only carries the fields its lines had. A missing
+		// field must not be merged as 0 / "" (that corrupted min, max, last, len).
+		_, hasFloat := set.FValues[storage]
+		_, hasString := set.SValues[storage]
+		if !hasFloat && !hasString {
+			continue
+		}
 		switch sc.Operation {
 		case Count:
 			fallthrough
